@@ -1020,6 +1020,8 @@ _PDAS = {
     'replace X by Y, b needs X': (['p1', 'p2', 'p3', 'p0'], ['a', 'b'], ['X', 'Y'], [('p0', '_', '_', 'p1', 'X'), ('p1', 'a', 'X', 'p2', 'Y'), ('p2', 'b', 'X', 'p3', '_')], 'p0', ['p3']),
     'push and pop on the same letter': (['q0', 'q1', 'q2'], ['a'], ['A'], [('q0', 'a', '_', 'q1', 'A'), ('q1', 'a', '_', 'q1', 'A'), ('q1', 'a', 'A', 'q2', '_'), ('q2', 'a', 'A', 'q2', '_')], 'q0', ['q2']),
     'final initial state, stack-neutral loop': (['s'], ['a'], ['A'], [('s', 'a', '_', 's', '_')], 's', ['s']),
+    'pushes and never pops (a*)': (['q0'], ['a'], ['X'], [('q0', 'a', '_', 'q0', 'X')], 'q0', ['q0']),
+    'two final states, symbols left on the stack': (['g0', 'g1', 'g2'], ['a', 'b'], ['X', 'Y'], [('g0', 'a', '_', 'g1', 'X'), ('g1', 'b', '_', 'g2', 'Y'), ('g1', 'a', 'X', 'g1', 'Y')], 'g0', ['g1', 'g2']),
     'palindromes with a centre mark': (['l', 'r'], ['a', 'b', 'c'], ['A', 'B'], [('l', 'a', '_', 'l', 'A'), ('l', 'b', '_', 'l', 'B'), ('l', 'c', '_', 'r', '_'), ('r', 'a', 'A', 'r', '_'), ('r', 'b', 'B', 'r', '_')], 'l', ['r']),
 }
 
@@ -1085,7 +1087,7 @@ def check_pda_acceptance(ctx, rep, f, rule=RULE + '.M25'):
     except (Unsupported, RecursionError) as e:
         rep.undecided(rule, f, 'def ' + f.name, 'outside the evaluator: {}'.format(e))
         return
-    rep.holds(rule, f, 'def ' + f.name, 'on {} evaluations (six model PDAs with pushing, popping, replacing and stack-neutral moves, a push and a pop on the same letter, a final initial state; all words up to length 4 resp. 3; two iteration orders of sets) the answer is True exactly when an accepting computation exists'.format(cases))
+    rep.holds(rule, f, 'def ' + f.name, 'on {} evaluations (eight model PDAs with pushing, popping, replacing and stack-neutral moves, a push and a pop on the same letter, symbols left on the stack, a final initial state; all words up to length 4 resp. 3; two iteration orders of sets) the answer is True exactly when an accepting computation exists'.format(cases))
 
 
 # ---- regular expression -> NFA and DFA -> regular expression on models --------------------------------------------------------------
@@ -1416,7 +1418,7 @@ def check_pda_run(ctx, rep, f, rule=RULE + '.M30'):
     except (Unsupported, RecursionError) as e:
         rep.undecided(rule, f, 'def ' + f.name, 'outside the evaluator: {}'.format(e))
         return
-    rep.holds(rule, f, 'def ' + f.name, 'on {} evaluations (six model PDAs, all words up to length 4 resp. 3, two iteration orders of sets) a run is returned exactly when an accepting computation exists and every returned run is a computation of the PDA'.format(cases))
+    rep.holds(rule, f, 'def ' + f.name, 'on {} evaluations (eight model PDAs, all words up to length 4 resp. 3, two iteration orders of sets) a run is returned exactly when an accepting computation exists and every returned run is a computation of the PDA'.format(cases))
 
 
 # ---- the finite-language helpers of the checkers on model languages -----------------------------------------------------------------
@@ -1543,3 +1545,55 @@ def check_cfg_membership(ctx, rep, f, rule=RULE + '.M32'):
         rep.undecided(rule, f, 'def ' + f.name, 'outside the evaluator: {}'.format(e))
         return
     rep.holds(rule, f, 'def ' + f.name, 'on {} evaluations (eight general model grammars, all words up to length 3) the answer is True exactly when the start variable derives the word, and the grammar handed in is untouched'.format(cases))
+
+
+# ---- PDA -> CFG on model PDAs ---------------------------------------------------------------------------------------------------------
+
+def check_pda_to_cfg(ctx, rep, f, rule=RULE + '.M33'):
+    """pda_to_cfg on the model PDAs (transition relation held in a defaultdict, as the parser builds it): the start variable of
+    the grammar derives exactly the words up to length 3 (2 for three letters) for which the PDA has an accepting computation;
+    the PDA handed in is untouched.  The normal forms the function establishes on its private copy (one accepting state,
+    push-or-pop moves only, empty stack on acceptance) are exercised by the replacing and stack-neutral moves of the models."""
+    import collections
+    from .small_models import _pda_classes
+    classes = dict(_CFG_CLASSES)
+    classes.update(_pda_classes())
+    classes['Variable'] = lambda x: V(str(x))
+    classes['Terminal'] = lambda x: T(str(x))
+    classes['CFG'] = lambda Vs, Sigma, R, S, *a, **k: Obj('CFG', V=Vs, Sigma=Sigma, R=R, S=S)
+    cases = 0
+    try:
+        for name, spec in _PDAS.items():
+            sigma = sorted(spec[1])
+            K = 3 if len(sigma) <= 2 else 2
+            for order in ('asc', 'desc'):
+                P = _pda(*spec)
+                dd = collections.defaultdict(set)
+                for k0, v0 in P._f['delta'].items():
+                    dd[k0] = set(v0)
+                P._f['delta'] = dd
+                snap = ({k0: set(v0) for k0, v0 in dd.items() if v0}, set(P._f['Q']), set(P._f['F']), set(P._f['Gamma']))
+                want = {''.join(t) for n in range(K + 1) for t in itertools.product(sigma, repeat=n) if _pda_accepts_ref(_pda(*spec), ''.join(t))}
+                it = _interp(ctx, order, classes=classes, max_steps=8000000)
+                it.constants = {'GambaTools.pda_epsilon_closure_max_iterations': 1000}
+                ok, got = _run(rule, rep, f, lambda: it.call(f, [P]), 'on the PDA "{}"'.format(name))
+                if not ok:
+                    return
+                if not isinstance(got, Obj) or got._cls != 'CFG':
+                    raise Unsupported('the result is not a grammar built by the constructor')
+                cases += 1
+                rules = []
+                for r in got._f['R']:
+                    rules.append((str(r._f['variable']), [(str(x), 'Variable' if getattr(x, '_gt_cls', None) == 'Variable' else 'Terminal') for x in r._f['alternative']._f['symbols']]))
+                have = _lang_fix(rules, K).get(str(got._f['S']), set())
+                if have != want:
+                    extra, missing = sorted(have - want), sorted(want - have)
+                    rep.violates(rule, f, 'def ' + f.name, 'on the PDA "{}" the grammar {}'.format(name, 'derives {!r}, for which the PDA has no accepting computation'.format(extra[0]) if extra else 'does not derive {!r}, which the PDA accepts'.format(missing[0])))
+                    return
+                if ({k0: set(v0) for k0, v0 in P._f['delta'].items() if v0}, set(P._f['Q']), set(P._f['F']), set(P._f['Gamma'])) != snap:
+                    rep.violates(rule, f, 'def ' + f.name, 'on the PDA "{}" the PDA handed in is modified'.format(name))
+                    return
+    except (Unsupported, RecursionError) as e:
+        rep.undecided(rule, f, 'def ' + f.name, 'outside the evaluator: {}'.format(e))
+        return
+    rep.holds(rule, f, 'def ' + f.name, 'on {} runs (eight model PDAs, two iteration orders of sets) the grammar derives exactly the words up to length 3 resp. 2 that the PDA accepts, and the PDA handed in is untouched'.format(cases))
